@@ -441,6 +441,16 @@ Definition sync_alloc (qi : qid) (a : alloc) (r : sync_reason) : alloc * list ou
       end
   end.
 
+(** the connect / loss arms of [sync_allocation_status] as they were before the fix of finding F15
+    (kept for the refutation witness only) *)
+Definition sync_alloc_unfixed (qi : qid) (a : alloc) (r : sync_reason) : alloc * list out * option fin_kind :=
+  match r, a_status a with
+  | RConnected w, Running e conn disc =>
+      (mkAlloc (a_id a) (a_target a) (Running e (set_insert w conn) disc), [], None)
+  | RLost _ _, Queued _ => (a, [], None)
+  | _, _ => sync_alloc qi a r
+  end.
+
 (** [sync_allocation_status] *)
 Definition sync_allocation_status (qi : qid) (q : queue) (id : aid) (r : sync_reason) : queue * list out :=
   match find_alloc id (q_allocs q) with
